@@ -47,6 +47,7 @@ type Exec struct {
 	curCallArgs  []ssa.Value // SSA arguments of the call whose contract is being applied
 	curCallFrame *Frame
 	curFree      map[string]Val
+	csMatched    map[*Clause]bool // call-site clauses that applied to at least one site
 	localObjs    []localObj // objects allocated by the frames being executed, with their types
 	freshMutexes []string // mutexes of objects this function allocated (free on allocation)
 	immut        []immutCell // captured variables that are never re-assigned: they keep their entry value across havocs
